@@ -319,3 +319,14 @@ impl ReadCursor {
         }
     }
 }
+
+impl Drop for ReadCursor {
+    fn drop(&mut self) {
+        // The group that is published when the queue goes away was never retired
+        unsafe {
+            let last_group = self.readers.load(Ordering::Relaxed);
+            ptr::read(last_group);
+            alloc::deallocate(last_group, 1);
+        }
+    }
+}
